@@ -233,6 +233,11 @@ def _mean_to_mid(inp, ignore_zeros, normals):
         raise Precondition("degenerate split")
     raws = [low, _mean(below), m, _mean(above), high]
     normals = list(normals)
+    for a, b in ((raws[-1], raws[-2]), (raws[0], raws[1])):
+        if a != b and close(a, b):
+            # an end control point that is distinct from, but indistinguishable (1e-9) from, the extreme: whether it is
+            # merged is a floating-point decision of the implementation
+            raise Precondition("end control points indistinguishable")
     if raws[-1] == raws[-2]:
         del raws[-2]
         del normals[-2]
@@ -436,17 +441,25 @@ def _bool(v):
     raise Precondition("not a boolean")
 
 
-def read_column(column):
-    """column: {"name", "type": "Float"|"Integer", "missing": number|None, "values": [numbers]}"""
-    mv = column.get("missing")
+def read_column(column, args=None):
+    """column: {"name", "type", "missing", "values"}; args: the EEMSRead arguments (MissingVal / DataType decide the
+    mask and element type of THIS read; without args the column's own declaration is used)."""
+    if args is None:
+        mv = column.get("missing")
+        as_int = column.get("type") == "Integer"
+    else:
+        mv = args.get("MissingVal")
+        as_int = args.get("DataType") == "Integer"
     vals = []
     for v in column["values"]:
         fv = F(v)
+        if as_int and fv.denominator != 1:
+            raise Precondition("Integer read of a non-integral column (truncation rules are not specified)")
         if mv is not None and fv == F(mv):
             vals.append(None)
         else:
             vals.append(fv)
-    return Res(vals, False, True, dtype="int" if column.get("type") == "Integer" else "float")
+    return Res(vals, False, True, dtype="int" if as_int else "float")
 
 
 DELTA = Fraction(1, 2 ** 43)      # ~1.1e-13 relative perturbation of every computed cell (conditioning probe)
@@ -484,7 +497,7 @@ def run_model(table, cmds, perturb=False):
             raise Precondition("cycle")
         c = by_name[name]
         if c["cmd"] == "EEMSRead":
-            env[name] = read_column(cols[c["args"]["InFieldName"]])
+            env[name] = read_column(cols[c["args"]["InFieldName"]], c["args"])
             return env[name]
         for ref in refs_of(c):
             get(ref, stack + (name,))
